@@ -145,6 +145,7 @@ func wireCmd(args []string) {
 		defer conn.Close()
 		client = proto.NewQueryServiceClient(conn)
 	}
+	downs := 0 // consecutive requests without an answer; after 3 the server is taken for dead
 	for i := 0; i < len(lines); i++ {
 		t := newToks(lines[i])
 		if !t.more() {
@@ -167,17 +168,24 @@ func wireCmd(args []string) {
 				pr("REQ %s %s\n", rid, serveInProcess(ix, req))
 				continue
 			}
+			if downs >= 3 {
+				pr("REQ %s DOWN server gave no answer to the 3 preceding requests\n", rid)
+				continue
+			}
 			ctx, cancel := context.WithTimeout(context.Background(), 20*time.Second)
 			resp, err := client.Query(ctx, req)
 			cancel()
 			if err != nil {
 				if strings.Contains(err.Error(), "Unavailable") || strings.Contains(err.Error(), "connection") || strings.Contains(err.Error(), "DeadlineExceeded") {
 					pr("REQ %s DOWN %s\n", rid, strings.ReplaceAll(err.Error(), "\n", " "))
+					downs++
 				} else {
 					pr("REQ %s ERR\n", rid)
+					downs = 0
 				}
 				continue
 			}
+			downs = 0
 			pr("REQ %s %s\n", rid, fmtWireResults(resp.GetResults()))
 		case "DATASET":
 			_, i = readDataset(lines, i)
